@@ -586,9 +586,9 @@ class Interp(InterpBase):
                 return
             self.assign(s.target, self.binop(s.op, cur, v, s, frame), frame)
         elif isinstance(s, ast.If):
-            d0 = len(self.decisions)
+            d0 = self.n_asked
             t = self.truth(self.eval(s.test, frame))
-            if len(self.decisions) > d0 and self.while_frames and self.while_frames[-1][0] is frame and _guards_exit(s):
+            if self.n_asked > d0 and self.while_frames and self.while_frames[-1][0] is frame and _guards_exit(s):
                 self.while_frames[-1][1] += 1  # the oracle decided whether the loop goes on
             if t:
                 self.exec_block(s.body, frame)
@@ -963,16 +963,26 @@ class Interp(InterpBase):
     def havoc_site(self, node: ast.AST, frame: Frame) -> str:
         return f"{frame.fi.fq if frame.fi else frame.module.name}:{getattr(node, 'lineno', 0)}:{getattr(node, 'col_offset', 0)}"
 
-    def havoc_after(self, body: list[ast.AST], targets: list[ast.expr], frame: Frame, keep_yields: bool = False) -> None:
+    def havoc_after(self, body: list[ast.AST], targets: list[ast.expr], frame: Frame, keep_yields: bool = False, site: str = "", extra: Any = None) -> None:
+        """Forgets what a skipped loop of unknown length did.  The value a variable has afterwards is an uninterpreted function of the
+        loop (its site) and of everything the loop can read at this point: two executions of the same loop from the same state yield
+        the same term (a helper that is called twice must not produce two unrelated unknowns)."""
         names: set[str] = set()
+        reads: set[str] = set()
         for b in [*body, *targets]:
             for n in ast.walk(b):
-                if isinstance(n, ast.Name) and isinstance(n.ctx, ast.Store):
-                    names.add(n.id)
+                if isinstance(n, ast.Name):
+                    (names if isinstance(n.ctx, ast.Store) else reads).add(n.id)
+        state = []
+        for n in sorted(reads | names):
+            ok, v = frame.lookup(n)
+            if ok and not isinstance(v, (FuncVal, ClassVal, Closure, ExtRef, Partial)):
+                state.append((n, _h(v) if not isinstance(v, ExtObj) else (v.name, v.version)))
+        key = (site, _h(extra), tuple(state))
         for n in sorted(names):
             ok, _ = frame.lookup(n)
             if ok:
-                frame.vars[n] = self.new_sym(f"{n} after loop")
+                frame.vars[n] = App("after", (n, *key))
         for o in self.ext_objs:
             o.version += 1
         self.open_after(body, frame)
@@ -988,22 +998,22 @@ class Interp(InterpBase):
                 if self.structural_decision("loop", site):
                     self.body_sites.append(site)
                     self.in_loop += 1
-                    self.havoc_after(s.body, [], frame)  # an arbitrary iteration, not the third one
+                    self.havoc_after(s.body, [], frame, site=site)  # an arbitrary iteration, not the third one
                     if self.truth(self.eval(s.test, frame)):
                         try:
                             self.exec_block(s.body, frame)
                         except (_Break, _Continue):
                             pass
                     raise EndRun()
-                self.havoc_after(s.body, [], frame)
+                self.havoc_after(s.body, [], frame, site=site)
                 if s.orelse:
                     if any(isinstance(x, ast.Break) for b in s.body for x in _same_loop_nodes(b)):
                         raise Unsupported("else clause of a while loop of unknown length that can also be left by break", s, fi)
                     self.exec_block(s.orelse, frame)
                 return
-            d0 = len(self.decisions)
+            d0 = self.n_asked
             t = self.truth(self.eval(s.test, frame))
-            ctl = len(self.decisions) > d0
+            ctl = self.n_asked > d0
             if not t:
                 self.exec_block(s.orelse, frame)
                 return
@@ -1319,7 +1329,7 @@ class Interp(InterpBase):
                 if any(p[0] != "item" for p in added):
                     raise Unsupported("nested segments of unknown length in a generator", s, frame.fi)
                 ys.append(("rep", [p[1] for p in added], source, self.havoc_site(s, frame)))
-                self.havoc_after(s.body, [s.target], frame, keep_yields=True)
+                self.havoc_after(s.body, [s.target], frame, keep_yields=True, site=self.havoc_site(s, frame), extra=source)
                 continue
             if self.structural_decision("loop", self.havoc_site(s, frame)):
                 self.body_sites.append(self.havoc_site(s, frame))
@@ -1335,7 +1345,7 @@ class Interp(InterpBase):
                     except _Break:
                         break
                 raise EndRun()
-            self.havoc_after(s.body, [s.target], frame)
+            self.havoc_after(s.body, [s.target], frame, site=self.havoc_site(s, frame), extra=source)
         if not broke:
             self.exec_block(s.orelse, frame)
 
